@@ -281,3 +281,20 @@ def upvar_of(body, v):
         return None
     nm = body.upvar_names.get(idx)
     return nm[0] if nm else None
+
+
+def derives_from(path, v, pred, depth=0):
+    """v mentions a call satisfying pred(call event), looking through the arguments of the calls it mentions."""
+    calls = getattr(path, '_calls', None)
+    if calls is None:
+        calls = path._calls = {e['id']: e for e in path.events if e['kind'] == 'call'}
+    if depth > 6:
+        return False
+    for x in walk(v):
+        if x[0] == 'call' and x[1] in calls:
+            c = calls[x[1]]
+            if pred(c):
+                return True
+            if any(derives_from(path, a, pred, depth + 1) for a in c['args']):
+                return True
+    return False
